@@ -54,8 +54,6 @@ Qed.
 Fixpoint simple_wf (fuel : nat) (e : elem) (s : simple) : Prop :=
   match s with
   | SClass v => v <> []
-  | SNthChild a b => in_i32 (e.(e_index) - b)
-  | SNthOfType a b => in_i32 (e.(e_type_index) - b)
   | SNot args => match fuel with O => True | S f => Forall (Forall (simple_wf f e)) args end
   | _ => True
   end.
@@ -83,8 +81,8 @@ Proof.
     + rewrite attr_value_views. destruct (attr_lookup (e_attrs e) (bs "class")); [|reflexivity]. rewrite (class_words v b) by exact Hwf. reflexivity.
     + rewrite attr_exists_views. reflexivity.
     + rewrite attr_value_views. destruct (attr_lookup (e_attrs e) (lower_bytes name)); [|reflexivity]. rewrite attribute_operators_are_css. reflexivity.
-    + rewrite has_index_correct by exact Hwf. reflexivity.
-    + rewrite has_index_correct by exact Hwf. reflexivity.
+    + rewrite has_index_exact. reflexivity.
+    + rewrite has_index_exact. reflexivity.
     + rewrite andb_true_r. reflexivity.
   - destruct s; cbn [add_simple flat_simple simple_matches]; rewrite ?pred_b_add_tag, ?pred_b_add_attr; unfold tag_conj, attr_conj; cbn [fst snd eval_tag_expr eval_attr_expr st_of ss_cumulative ss_typed];
       try reflexivity.
@@ -93,8 +91,8 @@ Proof.
     + rewrite attr_value_views. destruct (attr_lookup (e_attrs e) (bs "class")); [|reflexivity]. rewrite (class_words v b) by exact Hwf. reflexivity.
     + rewrite attr_exists_views. reflexivity.
     + rewrite attr_value_views. destruct (attr_lookup (e_attrs e) (lower_bytes name)); [|reflexivity]. rewrite attribute_operators_are_css. reflexivity.
-    + rewrite has_index_correct by exact Hwf. reflexivity.
-    + rewrite has_index_correct by exact Hwf. reflexivity.
+    + rewrite has_index_exact. reflexivity.
+    + rewrite has_index_exact. reflexivity.
     + (* SNot: two nested folds *)
       cbn [simple_wf] in Hwf. revert p. induction args as [|cmp args IHa]; intros p; cbn [fold_left forallb]; [rewrite andb_true_r; reflexivity|].
       inversion Hwf as [|? ? Hc Ha]; subst. rewrite (IHa Ha).
